@@ -116,6 +116,12 @@ def gen_cases(tier, seed):
         idx += 1
         cases.append({"id": "cx-%s" % fam, "kind": "cx", "family": fam, "ndraw": 4 if quick else 12, "seed": seed,
                       "idx": idx, "_threads": 2, "_weight": 0.1, "_timeout": 600})
+    # every exported evaluate_se_kernel* entry point of libmcider driven from its C signature (one of them has no Python
+    # caller in the repository)
+    for thr in (1, 4):
+        idx += 1
+        cases.append({"id": "raw-se-kernels-t%d" % thr, "kind": "raw", "family": "raw-c-entry-points", "ndraw": 6 if quick else 60,
+                      "seed": seed, "idx": idx, "_threads": thr, "_weight": 0.2, "_timeout": 600})
     idx = 1000
     for fam in ST_FAMILIES:
         idx += 1
@@ -141,12 +147,80 @@ def run_case(case, rec):
     rng = rng_for(case["seed"], PROP_NO, case["idx"])
     rec.tag("family", case["family"])
     rec.tag("omp_threads", case.get("_threads", 2))
-    if case["kind"] == "cx":
+    if case["kind"] == "raw":
+        _run_raw(case, rec, rng)
+    elif case["kind"] == "cx":
         _run_cx(case, rec, rng)
     elif case["kind"] == "st":
         _run_st(case, rec, rng)
     else:
         _run_sp(case, rec, rng)
+
+
+# ---------------------------------------------------------------------------------------------
+# exported C kernels driven directly
+
+def _run_raw(case, rec, rng):
+    """evaluate_se_kernel_spin (layout (2, n, nfeat)) and evaluate_se_kernel_spin_v2 (layout (n, 2, nfeat); no Python caller)
+    against k(x) = sum_t a_t [exp(-(d(xa,ca)+d(xb,cb))) + exp(-(d(xa,cb)+d(xb,ca)))], d(u,v) = sum_j e_j (u_j-v_j)^2, and its
+    analytic gradient; value and gradient must ACCUMULATE into the output buffers."""
+    import ctypes
+
+    from ciderpress.lib import load_library
+    lib = load_library("libmcider")
+    dp = ctypes.c_void_p
+    for d in range(case["ndraw"]):
+        n = int(rng.choice([1, 2, 9, 130]))
+        nc = int(rng.choice([1, 3, 11]))
+        nf = int(rng.integers(1, 6))
+        xa, xb = rng.normal(size=(n, nf)), rng.normal(size=(n, nf))
+        ca, cb = rng.normal(size=(nc, nf)), rng.normal(size=(nc, nf))
+        a = rng.normal(size=nc)
+        e = rng.uniform(0.1, 1.5, size=nf)
+
+        def dist(u, v):
+            return np.einsum("j,itj->it", e, (u[:, None, :] - v[None, :, :]) ** 2)
+
+        aabb = np.exp(-(dist(xa, ca) + dist(xb, cb))) * a
+        abba = np.exp(-(dist(xa, cb) + dist(xb, ca))) * a
+        f = (aabb + abba).sum(axis=1)
+        ga = 2 * e * (np.einsum("it,itj->ij", aabb, ca[None] - xa[:, None]) + np.einsum("it,itj->ij", abba, cb[None] - xa[:, None]))
+        gb = 2 * e * (np.einsum("it,itj->ij", aabb, cb[None] - xb[:, None]) + np.einsum("it,itj->ij", abba, ca[None] - xb[:, None]))
+        pre = float(rng.normal())
+        sc = max(float(np.max(np.abs(f))), abs(pre))
+        gsc = max(float(np.max(np.abs(ga))), float(np.max(np.abs(gb))), abs(pre))
+        for name in ("evaluate_se_kernel_spin", "evaluate_se_kernel_spin_v2"):
+            fn = getattr(lib, name, None)
+            if fn is None:
+                rec.note("entry_point_absent", name)
+                continue
+            if name.endswith("_v2"):
+                x = np.ascontiguousarray(np.stack([xa, xb], axis=1))
+                c = np.ascontiguousarray(np.stack([ca, cb], axis=1))
+                outd = np.full((n, 2, nf), pre)
+                pick = lambda o: (o[:, 0], o[:, 1])
+            else:
+                x = np.ascontiguousarray(np.stack([xa, xb], axis=0))
+                c = np.ascontiguousarray(np.stack([ca, cb], axis=0))
+                outd = np.full((2, n, nf), pre)
+                pick = lambda o: (o[0], o[1])
+            out = np.full(n, pre)
+            try:
+                fn(out.ctypes.data_as(dp), outd.ctypes.data_as(dp), x.ctypes.data_as(dp), c.ctypes.data_as(dp), a.ctypes.data_as(dp),
+                   e.ctypes.data_as(dp), ctypes.c_int(n), ctypes.c_int(nc), ctypes.c_int(nf))
+            except Exception as ex:  # noqa: BLE001 - signature differs from the one assumed here
+                rec.note("raw_call_failed[%s]" % name, repr(ex)[:200])
+                continue
+            oa, ob = pick(outd)
+            rec.check("raw_value[%s]" % name, float(np.max(np.abs(out - pre - f))) / sc, 1e-11, mechanism="%s:value" % name,
+                      detail={"n": n, "nctrl": nc, "nfeat": nf})
+            rec.check("raw_grad_alpha[%s]" % name, float(np.max(np.abs(oa - pre - ga))) / gsc, 1e-11, mechanism="%s:gradient[alpha]" % name,
+                      detail={"n": n, "nctrl": nc, "nfeat": nf})
+            rec.check("raw_grad_beta[%s]" % name, float(np.max(np.abs(ob - pre - gb))) / gsc, 1e-11, mechanism="%s:gradient[beta]" % name,
+                      detail={"n": n, "nctrl": nc, "nfeat": nf})
+            if np.max(np.abs(gb - ga)) > 1e-6 * gsc:
+                rec.nontrivial("raw|%s|%d|%d|%d|%d" % (name, n, nc, nf, d))
+    rec.set_sample({"entry_points": ["evaluate_se_kernel_spin", "evaluate_se_kernel_spin_v2"], "draws": case["ndraw"]})
 
 
 # ---------------------------------------------------------------------------------------------
